@@ -39,6 +39,7 @@ func init() {
 
 func runC07(c *Ctx) {
 	u, r := c.U, c.R
+	seedfixC07(c)
 	fn := c.Fn("R-SCHEMA-GATE", "deserializeParams")
 	if fn != nil {
 		eq := u.Calls(fn, HasSuffix("arrow.Schema).Equal"))
